@@ -262,6 +262,15 @@ theorem c10_d21_regression :
         (embed (.range false "a" (.list [.name "z"]) (.const (.int 5)) true true)) = .error .nameError := by
   constructor <;> simp [c10_range_subst, V.subst, V.substs, sigmaOf, List.lookup]
 
+/-- Executing a retained query object does not change it, so the answers of successive executions
+with different `names` are independent: each one is the substitution of THAT execution's names
+into the original tree (whatever the earlier executions bound or failed to bind). -/
+theorem c10_subst_pure (w : W) (ns : List Names) :
+    execSeq w ns = (w, ns.map (fun n => (leaves w).map (resolveLeaf n))) := by
+  induction ns with
+  | nil => rfl
+  | cons n ns ih => simp [execSeq, execOnce, ih]
+
 /-! ## `==` is structural identity -/
 
 /-- The four `__eq__` methods (`Comparator`, `_Range`, `BoolOp`, `Name`) compute exactly
